@@ -285,7 +285,7 @@ impl Scenario for C03S {
         }
     }
     fn rule(&self) -> &'static str {
-        "case = seeded history (clone / drop / send / embed-in-message / extract / drop-carrying-receiver / fork-to-thread / hold) over 2..5 channels executed by 1..4 actors (threads or sim-processes), observers per channel using recv / try_recv / try_recv_timeout, and a scheduling policy; non-trivial = at least one handle travelled inside a message or was cloned, and at least one observer verdict (closed/empty/blocked) was judged; distinct = distinct (workload, schedule hash)"
+        "case = seeded history (clone / drop / send / embed-in-message / extract / drop-carrying-receiver / fork-to-thread / hold) over 2..5 channels executed by 1..4 actors (threads or sim-processes, which may die after k operations taking their handles and carrier receivers with them), observers per channel using recv / try_recv / try_recv_timeout, and a scheduling policy; non-trivial = at least one handle travelled inside a message or was cloned, and at least one observer verdict (closed/empty/blocked) was judged; distinct = distinct (workload, schedule hash)"
     }
     fn gen(&self, seed: u64, idx: u64, _tier: Tier, variant: &str) -> Value {
         let mut r = Rng::stream(seed, idx.wrapping_mul(2654435761).wrapping_add(0xC03));
